@@ -131,6 +131,7 @@ class HistRunner {
     io_reset();
     io_set_root(dir);
     io_record(true, false);
+    if (iop_seed) io_set_perturb(iop_seed);
     if (scfg.strategy != ST_OFF) {
       sched_begin(scfg);
       sched_on = true;
@@ -150,7 +151,9 @@ class HistRunner {
     scfg.seed = (uint64_t)op.geti("sseed", 1);
     scfg.spurious = op.geti("spur", 0) != 0;
     scfg.step_limit = 20000000;
+    iop_seed = op.geti("iop", 0) ? (uint64_t)op.geti("sseed", 1) * 2 + 1 : 0;
   }
+  uint64_t iop_seed = 0;   // benign I/O perturbation (short reads/writes, EINTR): see vfio.h
 
   void open_db() {
     opts.build(cfg);
@@ -197,9 +200,11 @@ class HistRunner {
     if (c07_nt) rep->fp("C07.nt", h);
     if (c13_nt) rep->fp("C13.nt", h);
     if (c20_nt) rep->fp("C20.nt", h);
+    if (iop_seed && had_reopen) rep->fp("C15.nt", h);   // a log was recovered through perturbed reads
     if (c20_nt) rep->count("class.C20_nontrivial");
     if (c20_failed_open) rep->count("class.C20_failed_open_then_reopen");
     for (uint64_t lh : layout_hashes) rep->fp("C14.nt", lh);
+    if (iop_seed) rep->count("class.io_perturbed(short_reads_writes_eintr)");
     if (had_reopen) rep->count("class.reopen");
     if (had_bigval) rep->count("class.value>=64KiB");
     if (had_tomb_above) rep->count("class.tombstone_above_deeper_value");
